@@ -182,7 +182,7 @@ class TractWriter:
                 elem = ','.join([f"{k}:{v}" for k, v in elem.items()])
             elif isinstance(elem, (list, tuple)):
                 flat = flatten(elem)
-                elem = ', '.join(flat)
+                elem = ', '.join(str(e) for e in flat)
             scrubbed.append(elem)
         return scrubbed
 
